@@ -249,7 +249,8 @@ fn aligned_include_family(rep: &mut Report) {
     for delta in [-3i64, -1, 0, 1, 2] {
         for pre in ["", "ttt;\n", "/* t */\n"] {
             for tail in ["\nttt tt;\n", " // t\nt;\n", "\n\n  t\n"] {
-                for second in [false, true] {
+                for second in [false, true, false, false] {
+                    let bom = if k % 4 == 2 { 1 } else if k % 4 == 3 { 2 } else { 0 };   // 1: the header starts with a byte order mark, 2: the top file does (on a line of its own: it is text, and text may not share a line with an `include)
                     let d = format!("{}/a{}", dir, k); k += 1;
                     std::fs::create_dir_all(&d).unwrap();
                     let hname = format!("{}/h.svh", d);
@@ -257,9 +258,10 @@ fn aligned_include_family(rep: &mut Report) {
                     let e = (pre.len() + inc1.len()) as i64 + delta;
                     if e < 6 { continue; }
                     // header made of the marker letter 'h', exactly e bytes long
-                    let h = format!("{};\n", "h".repeat(e as usize - 2));
+                    // (a byte order mark is not white space for the preprocessor: it is ordinary text and must be accounted for in every offset)
+                    let h = if bom == 1 { format!("{}{};\n", '\u{feff}', "h".repeat((e as usize).saturating_sub(5).max(1))) } else { format!("{};\n", "h".repeat(e as usize - 2)) };
                     std::fs::write(&hname, &h).unwrap();
-                    let mut top = format!("{}{}{}", pre, inc1, tail);
+                    let mut top = format!("{}{}{}{}", if bom == 2 { "\u{feff}\n" } else { "" }, pre, inc1, tail);
                     let mut files = vec![(hname.clone(), h.clone())];
                     if second {
                         let gname = format!("{}/g.svh", d);
